@@ -156,6 +156,67 @@ theorem tcp_never_h3 (cfg : Cfg) (alpn : List Alpn) (sni : Option String) (m : M
         simpa using hne
     · cases h
 
+/-- **QUIC connections speak HTTP/3 only**: whatever the SNI, an accepted QUIC connection is an
+HTTP/3 one -/
+theorem quic_always_h3 (cfg : Cfg) (sni : Option String) (m : Meta) (h : quicAccept cfg sni = some m) :
+    m.protocol = .h3 := by
+  have hb : ∀ m', bootstrap cfg = some m' → m'.protocol = .h3 := by
+    intro m' hm'
+    unfold bootstrap at hm'
+    cases hh : cfg.main.head? with
+    | none => simp [hh] at hm'
+    | some x => simp [hh] at hm'; subst hm'; rfl
+  unfold quicAccept at h
+  split at h
+  · exact hb m h
+  · split at h
+    · exact hb m h
+    · split at h
+      · next m' hs =>
+        simp only [Option.some.injEq] at h
+        subst h
+        rcases protocol_is_best_common cfg [some .h3] _ m' hs with ⟨he, _, _⟩ | ⟨hmem, _, _, _⟩
+        · cases he
+        · simpa using hmem
+      · exact hb m h
+
+/-- **On QUIC too the designated entry is served**: when the SNI designates an entry whose channel
+admits HTTP/3 and HTTP/3 is enabled, the QUIC connection gets that entry's certificate and
+channel (with the credentials label of the `<credentials>.<host>` form) -/
+theorem quic_designated_host (cfg : Cfg) (sni : String) (hne : sni.isEmpty = false) (ch : Channel) (name : String)
+    (creds : Option String) (hd : designated cfg sni = some (ch, name, creds)) (he : Proto.h3 ∈ cfg.enabled) :
+    ∃ m, quicAccept cfg (some sni) = some m ∧ m.channel = ch ∧ m.host = (ch, name) ∧ m.creds = creds ∧ m.protocol = .h3 := by
+  have hp : permits ch .h3 = true := by cases ch <;> rfl
+  have hsome := common_protocol_accepted cfg [some .h3] sni ch name creds hd .h3 (by simp) he hp
+  obtain ⟨m, hm⟩ := Option.isSome_iff_exists.1 hsome
+  refine ⟨m, ?_, ?_⟩
+  · simp [quicAccept, hne, hm]
+  · have hq : quicAccept cfg (some sni) = some m := by simp [quicAccept, hne, hm]
+    have h3 := quic_always_h3 cfg (some sni) m hq
+    obtain ⟨ch', name', creds', hd', hc, hh, hcr, _⟩ := select_designated_host cfg [some .h3] sni m hm
+    rw [hd] at hd'
+    simp only [Option.some.injEq, Prod.mk.injEq] at hd'
+    obtain ⟨e1, e2, e3⟩ := hd'
+    subst e1 e2 e3
+    exact ⟨hc, hh, hcr, h3⟩
+
+/-- an SNI designating no entry (or none at all) is not refused on QUIC: the connection is a
+tunnel connection of the first main host (noted, not required by the property, which speaks of TCP) -/
+theorem quic_unknown_sni_is_bootstrap (cfg : Cfg) (sni : String) (h : designated cfg sni = none) :
+    quicAccept cfg (some sni) = bootstrap cfg ∧ quicAccept cfg none = bootstrap cfg := by
+  have hs := (no_entry_refused cfg [some .h3] sni h).1
+  constructor
+  · simp only [quicAccept]
+    split
+    · rfl
+    · rw [hs]
+  · rfl
+
+example : quicAccept ⟨["main.example"], ["ping.example"], [], [], [], [.h1, .h2, .h3]⟩ (some "ping.example") =
+    some ⟨"ping.example", .h3, .ping, (.ping, "ping.example"), none⟩ := by decide
+example : quicAccept ⟨["main.example"], ["ping.example"], [], [], [], [.h1, .h2, .h3]⟩ (some "nope") =
+    some ⟨"main.example", .h3, .tunnel, (.tunnel, "main.example"), none⟩ := by decide
+
 /-- **A failed reload leaves the previous configuration in force; a successful one replaces it
 wholesale** -/
 theorem reload_failure_keeps_old (enabled : List Proto) (rp : Bool) (cur : Cfg) (h : HostsSettings)
